@@ -37,7 +37,8 @@ AllDevs == {
     "test_module_imports_ignored", \* resolver.rs:194-204 imports made by the using (test) module are never consulted
     "alias_import_lost",        \* imports.rs:178,522 `from m import a as b`: b is looked up as a fixture NAME, the alias is lost
     "memo_truncated",           \* imports.rs:421-458 visited-truncated import set is memoised
-    "reexport_from_current_text"\* imports.rs:429-481 re-exports recomputed from current (maybe invalid) text
+    "reexport_from_current_text",\* imports.rs:429-481 re-exports recomputed from current (maybe invalid) text
+    "tier_first_registered"     \* resolver.rs:263-292, 574-600, 1781-1790 several plugins / installed plugins providing one name: first REGISTERED wins
 }
 
 NoMod == [present |-> FALSE, valid |-> FALSE, items |-> <<>>]   \* "no entry" in file_cache / on disk
@@ -240,6 +241,13 @@ LastByLine(seq, P(_)) ==
     LET S == { j \in 1..Len(seq) : P(seq[j]) }
     IN  IF S = {} THEN NoRec
         ELSE seq[CHOOSE j \in S : \A k \in S : seq[k].idx < seq[j].idx \/ (seq[k].idx = seq[j].idx /\ k <= j)]
+\* Several workspace plugins (or several installed plugins) providing one name: the code takes the first REGISTERED one
+\* (deviation tier_first_registered: the answer then depends on the scan order); the repaired design takes a
+\* registration-independent one (any fixed choice among the candidates; the statement names no winner)
+TierPick(D, seq, P(_)) ==
+    IF "tier_first_registered" \in D THEN FirstWhere(seq, P)
+    ELSE LET S == { seq[j] : j \in { k \in 1..Len(seq) : P(seq[k]) } }
+         IN  IF S = {} THEN NoRec ELSE CHOOSE r \in S : TRUE
 
 \* what the (repaired) import branch should return: the definition the import chain provides
 ProvidedRec(ix, c, n, excl) ==
@@ -274,8 +282,8 @@ ImplClosestM(ix, D, memo, f, n, excl) ==
         same == IF own # NoRec \/ "test_module_imports_ignored" \in D \/ RoleOf[f] = "conftest" THEN own
                 ELSE ProvidedRec(ix, f, n, excl)
         walk == WalkChain(ix, D, memo, Chain(DirOf[f]), 1, n, excl)
-        plug  == FirstWhere(defs, LAMBDA r : r.plugin /\ ~r.third /\ Pass(r, excl))
-        third == FirstWhere(defs, LAMBDA r : r.third /\ Pass(r, excl))
+        plug  == TierPick(D, defs, LAMBDA r : r.plugin /\ ~r.third /\ Pass(r, excl))
+        third == TierPick(D, defs, LAMBDA r : r.third /\ Pass(r, excl))
     IN  \* `self.definitions.get(fixture_name)?` : no fixture of that NAME anywhere -> None at once
         IF defs = <<>> /\ "alias_import_lost" \in D THEN [rec |-> NoRec, memo |-> memo]
         ELSE IF same # NoRec THEN [rec |-> same, memo |-> memo]
@@ -341,8 +349,8 @@ ImplAvailableM(ix, D, memo, f) ==
                           IF c = NoFile THEN NoRec
                           ELSE IF direct(c) # NoRec THEN direct(c) ELSE viaImp(j, c)
                 hits == { j \in 1..Len(chain) : lvl(j) # NoRec }
-                plug  == FirstWhere(defs, LAMBDA r : r.plugin /\ ~r.third)
-                third == FirstWhere(defs, LAMBDA r : r.third)
+                plug  == TierPick(D, defs, LAMBDA r : r.plugin /\ ~r.third)
+                third == TierPick(D, defs, LAMBDA r : r.third)
             IN  IF same # NoRec THEN same
                 ELSE IF hits # {} THEN lvl(Min(hits))
                 ELSE IF plug # NoRec THEN plug
@@ -373,8 +381,8 @@ ImplResolveForFileX(ix, D, f, n, exclIn) ==
                   IF c = NoFile THEN NoRec
                   ELSE IF direct(c) # NoRec THEN direct(c) ELSE viaImp(c)
         hits == { j \in 1..Len(chain) : lvl(j) # NoRec }
-        plug  == FirstWhere(defs, LAMBDA r : r.plugin /\ ~r.third /\ Pass(r, excl))
-        third == FirstWhere(defs, LAMBDA r : r.third /\ Pass(r, excl))
+        plug  == TierPick(D, defs, LAMBDA r : r.plugin /\ ~r.third /\ Pass(r, excl))
+        third == TierPick(D, defs, LAMBDA r : r.third /\ Pass(r, excl))
     IN  IF defs = <<>> THEN NoRec
         ELSE IF same # NoRec THEN same
         ELSE IF hits # {} THEN lvl(Min(hits))
